@@ -2,6 +2,17 @@ import gfapy
 
 class Validation:
 
+  def _validate_record_type_specific_info(self):
+    "Checks that the begin of each interval is not after its end"
+    for pfx in ["s_","f_"]:
+      beg = gfapy.posvalue(self.get(pfx+"beg"))
+      end = gfapy.posvalue(self.get(pfx+"end"))
+      if beg > end:
+        raise gfapy.ValueError(
+            "Fragment: {}\n".format(str(self))+
+            "Field {}beg: begin position {} ".format(pfx, beg)+
+            "is larger than the end position {}".format(end))
+
   def validate_positions(self):
     "Checks that positions suffixed by $ are the last position of segments"
     if self.is_connected():
